@@ -562,7 +562,7 @@ def check_sims(ctx, exe, runner):
         if sim == 8:
             nx = cfg['grid'][0]; bounds = [[undy(v) for v in b] for b in A[3]]
             flag_gaus = cfg['extra'][3]
-            combo = 'nbsimu%s:ngrf=%d' % ('=1' if cfg['nbsimu'] == 1 else '>1', cfg['ngrf'])
+            combo = '%s:%s' % ('single-simulation' if cfg['nbsimu'] == 1 else 'several-simulations', 'two-grf' if cfg['ngrf'] == 2 else 'one-grf')
             for (x, y), d in zip(cfg['pts'], cfg['data']):
                 f = int(undy(d[2])); node = y * nx + x
                 if not flag_gaus:
